@@ -26,6 +26,10 @@ PROPS = {
  'C01': {'runs': bridge('C01'), 'monitor_props': ['C01'], 'rule': BRIDGE_RULE, 'assumptions': SYMBOLIC},
  'C02': {'runs': bridge('C02'), 'monitor_props': ['C02'], 'rule': BRIDGE_RULE, 'assumptions': SYMBOLIC,
          'partial': 'cross-context binding of sign-docs (injectivity of the concatenation up to a hash collision) is argued in DESIGN.md, not yet a Coq theorem'},
+ 'C10': {'runs': runs([{'family': 'ante', 'bin': 'ah', 'n': 400, 'shards': 2}], [{'family': 'ante', 'bin': 'ah', 'n': 4000, 'shards': 8}]),
+         'monitor_props': ['C10'],
+         'rule': 'every message type in the application interface registry x {CheckTx, ReCheck, PrepareProposal, ProcessProposal, FinalizeBlock} x signer {relayer proposer, validator, other} x memo {empty, x} x timeout {0, h-1, h, h+1} x bad signature, plus all ordered pairs of message types in one tx, through the real app.New behind ABCI with a fake engine; distinct = distinct (variant, mode)',
+         'assumptions': ['signature / sequence / pubkey decorators are cosmos-sdk (modelled as one boolean a_sig_ok); ReCheckTx does not re-verify signatures by design', 'in prepare/process modes baseapp also executes the messages, so admission is only observable for messages whose handler succeeds (others are skipped and counted)']},
  'C11': {
    'runs': locking('C11'),
    'monitor_props': ['C11'],
